@@ -136,13 +136,15 @@ class Canon:
             return None
         if self.known is None or path in self.known or norm_path(path) in self.known_norm:
             return None
-        if f.get("pub") or f.get("impl_trait") or f.get("derived"):
-            return None
+        if f.get("impl_trait") or f.get("derived"):
+            return None          # (a NEW public method is as transparent as a private one: what was known is excluded above)
         if any(p.get("k") != "Bind" or p.get("byref") for p in f.get("params", [])):
             return None
         body = f.get("body")
         if not isinstance(body, dict) or body.get("k") != "Block":
             return None
+        if not allow_ret and any(n.get("k") == "Ret" for n in _walk(body)):
+            self._early_returns_to_expr(body, f.get("output"))      # `if c { return A; } rest; B`  ->  `if c { A } else { rest; B }`
         for n in _walk(body):
             if (n.get("k") == "Try" and not allow_try) or (n.get("k") == "Ret" and not allow_ret):
                 return None
@@ -153,6 +155,41 @@ class Canon:
         if allow_ret and any(n.get("k") == "Closure" and any(x.get("k") == "Ret" for x in _walk(n)) for n in _walk(body)):
             return None
         return f
+
+    def _early_returns_to_expr(self, body, out_ty):
+        """A value-returning helper written with guard-style early returns, put into expression form (same evaluation order, same value):
+        `{ pre; if c { s; return A; } rest; B }`  ->  `{ pre; if c { s; A } else { rest; B } }`, repeatedly.  Only top-level guards whose
+        arm ends in the arm's only `return`; anything else is left alone (and the helper then stays un-inlined)."""
+        if body.get("expr") is None:
+            return False
+        stmts = body.get("stmts", [])
+        for i, st in enumerate(stmts):
+            e = _strip(st.get("e") or {}) if st.get("k") in ("Semi", "Expr") else {}
+            if e.get("k") != "If" or e.get("else") is not None or e.get("m") or (isinstance(e.get("cond"), dict) and e["cond"].get("k") == "LetCond"):
+                if any(n.get("k") == "Ret" for n in _walk(st)):
+                    return False
+                continue
+            th = _strip(e["then"])
+            rets = [n for n in _walk(e) if n.get("k") == "Ret"]
+            if not rets:
+                continue
+            if th.get("k") != "Block" or th.get("m") or not th.get("stmts") or th.get("expr") is not None or len(rets) != 1:
+                return False
+            last = th["stmts"][-1]
+            le = _strip(last.get("e") or {}) if last.get("k") in ("Semi", "Expr") else {}
+            if le is not rets[0] or not isinstance(le.get("e"), dict):
+                return False
+            sp = list(e.get("sp") or [0, 0, 0, 0])
+            rest = {"k": "Block", "stmts": stmts[i + 1:], "expr": body.get("expr"), "id": self._id(), "ty": out_ty, "sp": list((stmts[i + 1] if i + 1 < len(stmts) else body["expr"]).get("sp") or sp)}
+            if any(n.get("k") == "Ret" for n in _walk(rest)) and not self._early_returns_to_expr(rest, out_ty):
+                return False
+            then_b = {"k": "Block", "stmts": th["stmts"][:-1], "expr": le["e"], "id": self._id(), "ty": out_ty, "sp": list(th.get("sp") or sp)}
+            new_if = {"k": "If", "cond": e["cond"], "then": then_b, "else": rest, "id": self._id(), "ty": out_ty, "sp": sp}
+            body["stmts"] = stmts[:i]
+            body["expr"] = new_if
+            self.stats["early_return_helpers"] = self.stats.get("early_return_helpers", 0) + 1
+            return True
+        return False
 
     def run_fn(self, f, stack=()):
         p = f["path"]
@@ -195,6 +232,7 @@ class Canon:
                     if n.get("k") == "Block" and n is not body:
                         self.inline_block(n, f)
                 self.inline_exprs(body, f)
+            self.ret_if(body)                # an inlined expression-form helper under `return`: each arm is an exit of its own again
             self.flatten_blocks(body)
             self.split_tuple_lets(body)
             self.beta_reduce(body)
@@ -205,6 +243,8 @@ class Canon:
             self.mem_replace(body)
             self.loop_to_while(body)
             self.while_loops(body)
+            self.struct_pattern_lets(body)
+            self.result_temporaries(body)
             self.slice_aliases(body)
             self.fill_calls(body)
             self.for_each_loops(body)
@@ -731,6 +771,13 @@ class Canon:
                 if a_.get("k") != "Let" or a_.get("pat", {}).get("k") != "Bind" or not a_["pat"].get("mut") or a_.get("init") is None:
                     continue
                 cell = _strip(a_["init"])
+                via = None
+                if cell.get("k") == "Local" and i >= 2:
+                    # `let acc = X[i]; let mut a = acc;` (a by-value parameter of an inlined helper): the cell one name further
+                    p_ = sts[i - 2]
+                    if p_.get("k") == "Let" and p_.get("pat", {}).get("k") == "Bind" and not p_["pat"].get("mut") and p_["pat"].get("v") == cell.get("v") and p_.get("init") is not None and \
+                            len([x for x in _walk(body) if x.get("k") == "Local" and x.get("v") == cell.get("v")]) == 1:
+                        via, cell = p_, _strip(p_["init"])
                 lp = _strip(l_.get("e") or {}) if l_.get("k") in ("Semi", "Expr") else {}
                 wb = _strip(w_.get("e") or {}) if w_.get("k") in ("Semi", "Expr") else {}
                 if cell.get("k") != "Index" or lp.get("k") not in ("For", "While") or wb.get("k") != "Assign" or not self._pure(cell):
@@ -761,7 +808,7 @@ class Canon:
                         if x.get("sp") and y["l"].get("sp"):
                             x["sp"] = list(y["l"]["sp"])
                     y["l"] = c_
-                blk["stmts"] = [x for x in sts if x is not a_ and x is not w_]
+                blk["stmts"] = [x for x in sts if x is not a_ and x is not w_ and x is not via]
                 sts = blk["stmts"]
                 self.stats["demoted_accumulators"] = self.stats.get("demoted_accumulators", 0) + 1
                 i = 0
@@ -2070,6 +2117,77 @@ class Canon:
             t = blk.get("expr")
             if isinstance(t, dict) and str(t.get("m") or "").split("::")[-1].startswith("debug_assert"):
                 blk["expr"] = None
+
+    def result_temporaries(self, body):
+        """`let mut t = E; <statements that use t and never mention X>; X = t;` (t not used afterwards)  ->  `X = E; <the statements on X>`:
+        the value was built in a temporary and moved into X (the body of an inlined `fn step(x, ..) -> X` helper)."""
+        again = True
+        while again:
+            again = False
+            for blk in [n for n in _walk(body) if n.get("k") == "Block"]:
+                sts = blk.get("stmts", [])
+                for i, st in enumerate(sts):
+                    if st.get("k") != "Let" or (st.get("pat") or {}).get("k") != "Bind" or not st["pat"].get("mut") or st["pat"].get("byref") or st.get("init") is None:
+                        continue
+                    tv = st["pat"]["v"]
+                    for j in range(i + 1, len(sts)):
+                        e = _strip(sts[j].get("e") or {}) if sts[j].get("k") in ("Semi", "Expr") else {}
+                        if e.get("k") == "Assign" and _strip(e["r"]).get("k") == "Local" and _strip(e["r"]).get("v") == tv and _strip(e["l"]).get("k") == "Local":
+                            xv = _strip(e["l"])["v"]
+                            mid = sts[i + 1:j]
+                            uses_after = any(x.get("k") == "Local" and x.get("v") == tv for s_ in sts[j + 1:] for x in _walk(s_)) or \
+                                (blk.get("expr") is not None and any(x.get("k") == "Local" and x.get("v") == tv for x in _walk(blk["expr"])))
+                            x_mid = any(x.get("k") == "Local" and x.get("v") == xv for s_ in mid for x in _walk(s_))
+                            closures = any(x.get("k") in ("Closure", "Ret", "Break", "Continue", "Try") for s_ in mid for x in _walk(s_))
+                            if uses_after or x_mid or closures or xv == tv:
+                                break
+                            xl = _strip(e["l"])
+                            for s_ in mid:
+                                for x in _walk(s_):
+                                    if x.get("k") == "Local" and x.get("v") == tv:
+                                        x["v"] = xv
+                                        x["name"] = xl.get("name")
+                            sp = list(st.get("sp") or [0, 0, 0, 0])
+                            asg = {"k": "Assign", "l": copy.deepcopy(xl), "r": st["init"], "id": self._id(), "ty": "()", "sp": sp}
+                            asg["l"]["sp"] = list(sp)
+                            asg["l"]["id"] = self._id()
+                            blk["stmts"] = sts[:i] + [{"k": "Semi", "e": asg, "sp": sp}] + mid + sts[j + 1:]
+                            self.stats["result_temporaries"] = self.stats.get("result_temporaries", 0) + 1
+                            again = True
+                            break
+                        if any(x.get("k") in ("Ret", "Break", "Continue") for x in _walk(sts[j])):
+                            break
+                    if again:
+                        break
+                if again:
+                    break
+
+    def struct_pattern_lets(self, body):
+        """`let S { a, b: c } = P;` (P a local / parameter, every field pattern a plain binding)  ->  `let a = P.a; let c = P.b;` when P is a
+        value, `let a = &mut P.a; ..` / `let a = &P.a; ..` when P is a reference (default binding modes): the fields under their own names."""
+        for blk in [n for n in _walk(body) if n.get("k") == "Block"]:
+            out, changed = [], False
+            for st in blk.get("stmts", []):
+                pat = st.get("pat") or {}
+                init = _strip(st.get("init") or {}) if st.get("k") == "Let" else {}
+                if st.get("k") == "Let" and pat.get("k") == "Struct" and st.get("els") is None and init.get("k") == "Local" and pat.get("fields") and \
+                        all((fp.get("pat") or {}).get("k") == "Bind" and not fp["pat"].get("byref") for fp in pat["fields"]):
+                    pty = str(init.get("ty") or "")
+                    sp = list(st.get("sp") or [0, 0, 0, 0])
+                    for j, fp in enumerate(pat["fields"]):
+                        b = fp["pat"]
+                        bty = str(b.get("ty") or "")
+                        fld = {"k": "Field", "e": copy.deepcopy(init), "name": fp["name"], "id": self._id(), "ty": bty.replace("&mut ", "", 1).replace("&", "", 1) if pty.startswith("&") else bty, "sp": list(sp)}
+                        val = fld
+                        if pty.startswith("&") and bty.startswith("&"):
+                            val = {"k": "AddrOf", "mut": bty.startswith("&mut"), "e": fld, "id": self._id(), "ty": bty, "sp": list(sp)}
+                        out.append({"k": "Let", "pat": b, "init": val, "sp": [sp[0], sp[1] + 0.001 * j, sp[2], sp[3] + 0.001 * j]})
+                    changed = True
+                    self.stats["struct_pattern_lets"] = self.stats.get("struct_pattern_lets", 0) + 1
+                else:
+                    out.append(st)
+            if changed:
+                blk["stmts"] = out
 
     def slice_aliases(self, body):
         """`let t = &mut X[a..b];` / `let t = &X[a..b];` (t immutable, X a place, a and b side-effect free)  ->  every use of `t` is the
